@@ -66,3 +66,140 @@ pub proof fn lemma_set_bits_props(m: u128, n: nat)
 {
     if n > 0 { lemma_set_bits_props(m, (n - 1) as nat); }
 }
+
+// ---- re-encoding (C05): decoding is injective on accepted inputs, i.e. the accessor values determine every input byte
+// (equivalently: there is a re-encoding of the accessors that reproduces the input exactly)
+pub open spec fn byte_at(s: Seq<u8>, i: int) -> u8 { s[i] }
+pub open spec fn mask_byte(m: u128, k: int) -> u8 { ((m >> ((8 * k) as u128)) & 0xff) as u8 }
+proof fn lemma_mask80_bytes(s: Seq<u8>, o: int)
+    requires 0 <= o, o + 10 <= s.len()
+    ensures forall|k: int| 0 <= k < 10 ==> #[trigger] byte_at(s, o + k) == mask_byte(mask80(s, o), k)
+{
+    let (b0, b1, b2, b3, b4, b5, b6, b7, b8, b9) = (s[o], s[o + 1], s[o + 2], s[o + 3], s[o + 4], s[o + 5], s[o + 6], s[o + 7], s[o + 8], s[o + 9]);
+    let m = mask80(s, o);
+    assert(m == (b0 as u128) | (b1 as u128) << 8 | (b2 as u128) << 16 | (b3 as u128) << 24 | (b4 as u128) << 32
+        | (b5 as u128) << 40 | (b6 as u128) << 48 | (b7 as u128) << 56 | (b8 as u128) << 64 | (b9 as u128) << 72);
+    assert(m == (b0 as u128) | (b1 as u128) << 8 | (b2 as u128) << 16 | (b3 as u128) << 24 | (b4 as u128) << 32
+        | (b5 as u128) << 40 | (b6 as u128) << 48 | (b7 as u128) << 56 | (b8 as u128) << 64 | (b9 as u128) << 72 ==>
+        b0 == ((m >> 0u128) & 0xff) as u8 && b1 == ((m >> 8u128) & 0xff) as u8 && b2 == ((m >> 16u128) & 0xff) as u8 && b3 == ((m >> 24u128) & 0xff) as u8
+        && b4 == ((m >> 32u128) & 0xff) as u8 && b5 == ((m >> 40u128) & 0xff) as u8 && b6 == ((m >> 48u128) & 0xff) as u8 && b7 == ((m >> 56u128) & 0xff) as u8
+        && b8 == ((m >> 64u128) & 0xff) as u8 && b9 == ((m >> 72u128) & 0xff) as u8) by (bit_vector);
+    assert forall|k: int| 0 <= k < 10 implies #[trigger] byte_at(s, o + k) == mask_byte(m, k) by {
+        if k == 0 {} else if k == 1 {} else if k == 2 {} else if k == 3 {} else if k == 4 {} else if k == 5 {} else if k == 6 {} else if k == 7 {} else if k == 8 {} else {}
+    }
+}
+// equal ascending set-bit lists below n mean equal low n bits
+proof fn lemma_set_bits_injective(m1: u128, m2: u128, n: nat)
+    requires n <= 127, set_bits_below(m1, n) == set_bits_below(m2, n)
+    ensures m1 & low(n) == m2 & low(n)
+    decreases n
+{
+    if n == 0 {
+        assert(m1 & (((1u128 << 0u128) - 1) as u128) == 0 && m2 & (((1u128 << 0u128) - 1) as u128) == 0) by (bit_vector);
+    } else {
+        let k = (n - 1) as nat;
+        lemma_set_bits_props(m1, k);
+        lemma_set_bits_props(m2, k);
+        let (r1, r2) = (set_bits_below(m1, k), set_bits_below(m2, k));
+        let (s1, s2) = (set_bits_below(m1, n), set_bits_below(m2, n));
+        if bit(m1, k) != bit(m2, k) {
+            // one list ends with k, the other contains only values < k
+            if bit(m1, k) { assert(s1.last() == k as u16); assert(s2 == r2); if s2.len() > 0 { assert(s2[s2.len() - 1] < k); } assert(s1.len() > 0); assert(false); }
+            else { assert(s2.last() == k as u16); assert(s1 == r1); if s1.len() > 0 { assert(s1[s1.len() - 1] < k); } assert(false); }
+        }
+        if bit(m1, k) { assert(r1 =~= s1.drop_last()); assert(r2 =~= s2.drop_last()); }
+        lemma_set_bits_injective(m1, m2, k);
+        let kk = k as u128;
+        assert(kk <= 126 && (m1 & (((1u128 << kk) - 1) as u128)) == (m2 & (((1u128 << kk) - 1) as u128)) && ((m1 >> kk) & 1) == ((m2 >> kk) & 1)
+            ==> (m1 & (((1u128 << ((kk + 1) as u128)) - 1) as u128)) == (m2 & (((1u128 << ((kk + 1) as u128)) - 1) as u128))) by (bit_vector);
+        assert(bit(m1, k) == bit(m2, k));
+        let (x1, x2) = (m1 >> kk, m2 >> kk);
+        assert((x1 & 1) == 0 || (x1 & 1) == 1) by (bit_vector);
+        assert((x2 & 1) == 0 || (x2 & 1) == 1) by (bit_vector);
+        assert(((m1 >> kk) & 1) == ((m2 >> kk) & 1));
+    }
+}
+proof fn lemma_chan_list_injective(m1: u128, m2: u128)
+    requires chan_list(m1) == chan_list(m2), m1 & low(79) == m1, m2 & low(79) == m2
+    ensures m1 == m2
+{
+    lemma_set_bits_props(m1, 79);
+    lemma_set_bits_props(m2, 79);
+    let (a, b) = (set_bits_below(m1, 79), set_bits_below(m2, 79));
+    assert(a.len() == chan_list(m1).len() && b.len() == chan_list(m2).len());
+    assert forall|i: int| 0 <= i < a.len() implies a[i] == b[i] by {
+        assert(chan_list(m1)[i] == chan_of((a[i] + 1) as u16));
+        assert(chan_list(m2)[i] == chan_of((b[i] + 1) as u16));
+        lemma_chan_injective((a[i] + 1) as u16, (b[i] + 1) as u16);
+    }
+    assert(a =~= b);
+    lemma_set_bits_injective(m1, m2, 79);
+}
+proof fn lemma_le16_injective(s: Seq<u8>, t: Seq<u8>, o: int)
+    requires 0 <= o, o + 2 <= s.len(), o + 2 <= t.len(), le16(s, o) == le16(t, o)
+    ensures s[o] == t[o], s[o + 1] == t[o + 1]
+{
+    vstd::bytes::lemma_auto_spec_u16_to_from_le_bytes();
+    let (a, b) = (s.subrange(o, o + 2), t.subrange(o, o + 2));
+    assert(a.len() == 2 && b.len() == 2);
+    assert(vstd::bytes::spec_u16_to_le_bytes(vstd::bytes::spec_u16_from_le_bytes(a)) == a);
+    assert(vstd::bytes::spec_u16_to_le_bytes(vstd::bytes::spec_u16_from_le_bytes(b)) == b);
+    assert(a == b);
+    assert(a[0] == s[o] && a[1] == s[o + 1] && b[0] == t[o] && b[1] == t[o + 1]);
+}
+proof fn lemma_le32_injective(s: Seq<u8>, t: Seq<u8>, o: int)
+    requires 0 <= o, o + 4 <= s.len(), o + 4 <= t.len(), le32(s, o) == le32(t, o)
+    ensures forall|k: int| 0 <= k < 4 ==> #[trigger] byte_at(s, o + k) == byte_at(t, o + k)
+{
+    vstd::bytes::lemma_auto_spec_u32_to_from_le_bytes();
+    let (a, b) = (s.subrange(o, o + 4), t.subrange(o, o + 4));
+    assert(a.len() == 4 && b.len() == 4);
+    assert(vstd::bytes::spec_u32_to_le_bytes(vstd::bytes::spec_u32_from_le_bytes(a)) == a);
+    assert(vstd::bytes::spec_u32_to_le_bytes(vstd::bytes::spec_u32_from_le_bytes(b)) == b);
+    assert(a == b);
+    assert forall|k: int| 0 <= k < 4 implies #[trigger] byte_at(s, o + k) == byte_at(t, o + k) by { assert(a[k] == s[o + k] && b[k] == t[o + k]); }
+}
+proof fn lemma_le64_injective(s: Seq<u8>, t: Seq<u8>, o: int)
+    requires 0 <= o, o + 8 <= s.len(), o + 8 <= t.len(), le64(s, o) == le64(t, o)
+    ensures forall|k: int| 0 <= k < 8 ==> #[trigger] byte_at(s, o + k) == byte_at(t, o + k)
+{
+    vstd::bytes::lemma_auto_spec_u64_to_from_le_bytes();
+    let (a, b) = (s.subrange(o, o + 8), t.subrange(o, o + 8));
+    assert(a.len() == 8 && b.len() == 8);
+    assert(vstd::bytes::spec_u64_to_le_bytes(vstd::bytes::spec_u64_from_le_bytes(a)) == a);
+    assert(vstd::bytes::spec_u64_to_le_bytes(vstd::bytes::spec_u64_from_le_bytes(b)) == b);
+    assert(a == b);
+    assert forall|k: int| 0 <= k < 8 implies #[trigger] byte_at(s, o + k) == byte_at(t, o + k) by { assert(a[k] == s[o + k] && b[k] == t[o + k]); }
+}
+pub proof fn lemma_pwb_decode_injective(p: PwbV2Packet, s: Seq<u8>, t: Seq<u8>)
+    requires pwb_ok(s), pwb_ok(t), pwb_fields(p, s), pwb_fields(p, t)
+    ensures s == t
+{
+    assert(s.len() == t.len());
+    lemma_le16_injective(s, t, 10); lemma_le64_injective(s, t, 12); lemma_le16_injective(s, t, 20); lemma_le16_injective(s, t, 22);
+    lemma_le32_injective(s, t, 44); lemma_le16_injective(s, t, 48);
+    lemma_mask80_low(s, 24); lemma_mask80_low(t, 24); lemma_mask80_low(s, 34); lemma_mask80_low(t, 34);
+    lemma_chan_list_injective(mask80(s, 24), mask80(t, 24));
+    lemma_chan_list_injective(mask80(s, 34), mask80(t, 34));
+    lemma_mask80_bytes(s, 24); lemma_mask80_bytes(t, 24); lemma_mask80_bytes(s, 34); lemma_mask80_bytes(t, 34);
+    assert forall|i: int| 0 <= i < s.len() implies s[i] == t[i] by {
+        if i < 4 {
+        } else if i < 10 {
+            assert(s.subrange(4, 10)[i - 4] == s[i] && t.subrange(4, 10)[i - 4] == t[i]);
+        } else if i < 24 {
+            if i >= 12 && i < 20 { assert(byte_at(s, 12 + (i - 12)) == byte_at(t, 12 + (i - 12))); }
+        } else if i < 34 {
+            assert(byte_at(s, 24 + (i - 24)) == mask_byte(mask80(s, 24), i - 24) && byte_at(t, 24 + (i - 24)) == mask_byte(mask80(t, 24), i - 24));
+        } else if i < 44 {
+            assert(byte_at(s, 34 + (i - 34)) == mask_byte(mask80(s, 34), i - 34) && byte_at(t, 34 + (i - 34)) == mask_byte(mask80(t, 34), i - 34));
+        } else if i < 48 {
+            assert(byte_at(s, 44 + (i - 44)) == byte_at(t, 44 + (i - 44)));
+        } else if i < 52 {
+        } else {
+            let j = (i - 52) / 2;
+            assert(0 <= j < p.data@.len());
+            assert(p.data@[j] as int == lei16(s, 52 + 2 * j) && p.data@[j] as int == lei16(t, 52 + 2 * j));
+        }
+    }
+    assert(s =~= t);
+}
